@@ -91,7 +91,9 @@ def blockquote(state: StateBlock, startLine: int, endLine: int, silent: bool) ->
         pos += 1
 
     oldBSCount = [state.bsCount[startLine]]
-    state.bsCount[startLine] = (
+    # columns consumed so far on this physical line: what enclosing block quotes
+    # already consumed plus this marker (tab stops are counted from the line start)
+    state.bsCount[startLine] += (
         state.sCount[startLine] + 1 + (1 if spaceAfterMarker else 0)
     )
 
@@ -215,7 +217,7 @@ def blockquote(state: StateBlock, startLine: int, endLine: int, silent: bool) ->
             lastLineEmpty = pos >= max
 
             oldBSCount.append(state.bsCount[nextLine])
-            state.bsCount[nextLine] = (
+            state.bsCount[nextLine] += (
                 state.sCount[nextLine] + 1 + (1 if spaceAfterMarker else 0)
             )
 
